@@ -96,6 +96,49 @@ def r1(ctx, enq: Fn, purge_nodes):
         ctx.check(ok, R, "_enqueue_message:capacity-test-dominates-append", m, acall, "append happens only when len(queue) < 10; otherwise QueueOverflowError", found)
 
 
+def _purge_semantics(ctx, enq: Fn):
+    """Bounded abstract evaluation of _enqueue_message (sa/minieval.py): for every queue of 0..5 held entries and every
+    pattern of which of them have expired, and for a full queue (10 held, every number of expired ones), the method must
+    leave exactly the unexpired entries in their order followed by the new one - or raise the overflow error and hold
+    nothing new when ten unexpired entries are held.  Returns (True, note) / (False, witness) / (None, why-not-evaluable)."""
+    from itertools import product
+
+    from ..minieval import FakeObj, Mini, Unsupported
+
+    m = enq.module
+    p = enq.params[1]
+    cap = ctx.repo.try_fold(m, m.get_const_expr("MAX_MESSAGE_QUEUE_SIZE")) if "MAX_MESSAGE_QUEUE_SIZE" in m.assigns else None
+    if not isinstance(cap, int):
+        return None, "capacity constant not foldable"
+    patterns = [pat for n in range(0, 6) for pat in product((False, True), repeat=n)]
+    patterns += [tuple([True] * k + [False] * (cap - k)) for k in range(0, cap + 1)] + [tuple([False] * (cap - k) + [True] * k) for k in range(1, cap)]
+    tried = 0
+    for pat in patterns:
+        now = 50.0
+        held = [FakeObj("_MessageQueueEntry", expiry=(now if i % 2 else 10.0) if exp else 100.0 + i, tag=f"e{i}", header=None, message=None, retries_remaining=0) for i, exp in enumerate(pat)]
+        queue = list(held)
+        new = FakeObj("_MessageQueueEntry", expiry=200.0, tag="new", header=None, message=None, retries_remaining=0)
+        mini = Mini(ctx.repo, m, {"self._message_queue": queue, "self._loop.time()": now}, enq.cls)
+        try:
+            res = mini.function_value(enq.node, {p: new})
+        except Unsupported as ex:
+            return None, str(ex)
+        after = mini.atoms["self._message_queue"]
+        keep = [e for e, exp in zip(held, pat) if not exp]
+        tried += 1
+        tags = lambda xs: [x.tag for x in xs]  # noqa: E731
+        if len(keep) >= cap:
+            ok = res == ("raise", "QueueOverflowError") and tags(after) == tags(keep)
+            want = f"QueueOverflowError, still holding {tags(keep)}"
+        else:
+            ok = res is None and tags(after) == tags(keep) + ["new"]
+            want = f"holding {tags(keep) + ['new']}"
+        if not ok:
+            shown = "".join("x" if e else "." for e in pat)
+            return False, f"held entries (x = expired) [{shown}]: expected {want}; the method {'raises ' + res[1] if isinstance(res, tuple) else 'returns'} and holds {tags(after)}"
+    return True, f"{tried} queue contents evaluated"
+
+
 def r2(ctx, enq: Fn):
     """Accepted purge idioms (a full, deletion-safe scan):
        A  for i in reversed(range(len(q))) / range(len(q)-1, -1, -1): ... del q[i]
@@ -103,6 +146,21 @@ def r2(ctx, enq: Fn):
        C  self._message_queue = deque(e for e in q if <keep>)   (rebuild)
     Anything else that removes entries in _enqueue_message is refuted: it is either unsafe (ascending index,
     iterating the live deque) or not a full scan (stops at the first unexpired entry)."""
+    R = "C16.R2"
+    m = enq.module
+    sem, note = _purge_semantics(ctx, enq)
+    if sem is not None:
+        # decided by evaluation; the idiom scan below only collects the purge statements for the rules that need them
+        ctx.check(sem, R, "_enqueue_message:purge-idiom", m, enq.node, "every expired entry is discarded and every unexpired one kept, in order, before the capacity test (any scan idiom)", note)
+        before = len(ctx.obligations)
+        fl = dict(ctx.floor_failures) if isinstance(getattr(ctx, "floor_failures", None), dict) else None
+        nodes = _r2_idioms(ctx, enq)
+        del ctx.obligations[before:]
+        return nodes
+    return _r2_idioms(ctx, enq)
+
+
+def _r2_idioms(ctx, enq: Fn):
     R = "C16.R2"
     m = enq.module
     dels = [n for n in enq.cfg.nodes if n.kind == "stmt" and isinstance(n.ast, ast.Delete) and any(isinstance(t, ast.Subscript) and queue_ref(t.value) for t in n.ast.targets)]
